@@ -22,8 +22,13 @@ import (
 // repeated within 30 seconds of the last ones, whatever happened before.
 func TestC16RepeatInterval(t *testing.T) {
 	rec := evid.New(t, "C16", "time.Now is patched to add a generated offset: an ArduPilot sender is first seen at T, heartbeats follow at generated offsets below 30 s (nothing may be sent), then beyond 30 s (either nothing or exactly one more set of seven requests and one event), then again shortly after (nothing more, because the last requests are less than 30 s old); non-trivial = history with a jump beyond 30 s followed by further heartbeats; distinct by hash of the offsets")
+	rec.Require("heartbeat-of-another-autopilot-from-served-ids-beyond-30s", "rejected-input-between-served-sender's-heartbeats")
 	base := time.Now()
 	var offset int64
+	// nobody else may be inside time.Now while its code is rewritten, and the stall monitor has no use for a clock
+	// that jumps: it rests for the duration of this test
+	stalls.Pause()
+	defer stalls.Resume()
 	guard := monkey.Patch(time.Now, func() time.Time {
 		return base.Add(time.Since(base) + time.Duration(atomic.LoadInt64(&offset)))
 	})
@@ -35,7 +40,12 @@ func TestC16RepeatInterval(t *testing.T) {
 		within := rapid.SliceOfN(rapid.IntRange(1, 29900), 1, 3).Draw(t, "within_ms")
 		jump := rapid.IntRange(30100, 90000).Draw(t, "jump_ms")
 		after := rapid.SliceOfN(rapid.IntRange(1, 29000), 1, 4).Draw(t, "after_ms")
-		desc := fmt.Sprintf("heartbeats at +%vms (within 30s), +%dms, then +%vms after that", within, jump, after)
+		// what else happens on the link: bytes that are no frame and a frame with a wrong checksum before the
+		// heartbeats within the 30 s; and the heartbeat beyond 30 s may name another autopilot (the same ids, a
+		// reflashed or replaced device): only an ArduPilot heartbeat may renew the requests
+		noise := rapid.Bool().Draw(t, "rejected_input_on_the_link")
+		jumpAP := rapid.SampledFrom([]int{3, 3, 12, 0, 8}).Draw(t, "autopilot_of_the_heartbeat_beyond_30s")
+		desc := fmt.Sprintf("heartbeats at +%vms (within 30s, rejected input before them: %v), +%dms (autopilot %d), then +%vms after that", within, noise, jump, jumpAP, after)
 		p := sim.NewPipe()
 		n := &gomavlib.Node{Endpoints: []gomavlib.EndpointConf{gomavlib.EndpointCustom{ReadWriteCloser: p}}, Dialect: ardupilotmega.Dialect,
 			OutVersion: gomavlib.V2, OutSystemID: nodeSys, HeartbeatDisable: true, StreamRequestEnable: true}
@@ -48,10 +58,11 @@ func TestC16RepeatInterval(t *testing.T) {
 			r.WaitClosed(bound)
 		}()
 		seq := 0
+		ap := 3
 		hb := func() {
 			f := ref.Frame{V2: true, Seq: byte(seq), Sys: 1, Comp: 1, ID: 0}
 			seq++
-			f.Payload = hbLay.Encode(&minimal.MessageHeartbeat{Type: 2, Autopilot: 3, SystemStatus: 4, MavlinkVersion: 3}, true)
+			f.Payload = hbLay.Encode(&minimal.MessageHeartbeat{Type: 2, Autopilot: minimal.MAV_AUTOPILOT(ap), SystemStatus: 4, MavlinkVersion: 3}, true)
 			f.Checksum = f.ChecksumFor(50)
 			frames := 0
 			for _, e := range r.Snapshot() {
@@ -100,6 +111,21 @@ func TestC16RepeatInterval(t *testing.T) {
 		if w, e := counts(); w != 7 || e != 1 {
 			t.Fatalf("%s: first contact: %d requests, %d events", desc, w, e)
 		}
+		if noise {
+			bad := ref.Frame{V2: true, Seq: 200, Sys: 1, Comp: 1, ID: 0}
+			bad.Payload = hbLay.Encode(&minimal.MessageHeartbeat{Type: 2, Autopilot: 3, SystemStatus: 4, MavlinkVersion: 3}, true)
+			bad.Checksum = bad.ChecksumFor(50) ^ 0x0101
+			p.Feed(append([]byte{0x55, 0x03}, bad.Bytes()...))
+			r.WaitFor(bound, func(recs []sim.Rec) bool {
+				k := 0
+				for _, e := range recs {
+					if _, ok := e.Ev.(*gomavlib.EventParseError); ok {
+						k++
+					}
+				}
+				return k >= 3
+			})
+		}
 		for _, ms := range within {
 			atomic.StoreInt64(&offset, int64(time.Duration(ms)*time.Millisecond))
 			hb()
@@ -108,7 +134,21 @@ func TestC16RepeatInterval(t *testing.T) {
 			}
 		}
 		atomic.StoreInt64(&offset, int64(time.Duration(jump)*time.Millisecond))
+		ap = jumpAP
 		hb()
+		ap = 3
+		if jumpAP != 3 {
+			p.WaitWrites(8, 100*time.Millisecond)
+			time.Sleep(2 * time.Millisecond)
+			if w, e := counts(); w != 7 || e != 1 {
+				evid.ReplayNote("C16", "TestC16RepeatInterval", fmt.Sprintf("%s: %d requests, %d events after the heartbeat of autopilot %d", desc, w, e, jumpAP))
+				t.Fatalf("%s: a heartbeat naming autopilot %d (not ArduPilot) from ids that were served as ArduPilot %d ms earlier triggered requests: %d requests, %d events in all (heartbeats of other autopilots trigger nothing)", desc, jumpAP, jump, w, e)
+			}
+			rec.Class("heartbeat-of-another-autopilot-from-served-ids-beyond-30s", 1)
+			// an ArduPilot heartbeat right after it may renew (the last requests are more than 30 s old), once
+			atomic.StoreInt64(&offset, int64(time.Duration(jump+1)*time.Millisecond))
+			hb()
+		}
 		p.WaitWrites(8, 100*time.Millisecond)
 		if p.NumWrites() > 7 { // a second set has begun: let it complete before counting
 			p.WaitWrites(14, bound)
@@ -126,6 +166,9 @@ func TestC16RepeatInterval(t *testing.T) {
 				evid.ReplayNote("C16", "TestC16RepeatInterval", fmt.Sprintf("%s: %d -> %d requests", desc, w1, w))
 				t.Fatalf("%s: a heartbeat %d ms after the last requests triggered them again: %d -> %d requests, %d -> %d events (not to be repeated within 30 s)", desc, ms, w1, w, e1, e)
 			}
+		}
+		if noise {
+			rec.Class("rejected-input-between-served-sender's-heartbeats", 1)
 		}
 		rec.Case(true, evid.HashS(desc), "jump-beyond-30s-then-heartbeats")
 		rec.Sample("interval", desc)
